@@ -176,7 +176,7 @@ class DocEngine:
                        ("clone_swap", 1),
                        ("relookup", 2), ("touch", 1), ("edit", 1), ("save", 2.5 if self.n_saves < cfg["max_saves"] else 0), ("reopen", 3 if self._reopenable() else 0)]
         if self.prop == "C11":
-            weights = [("touch", 10 * cfg["p_touch"]), ("edit", 3), ("rich_para", 6), ("add_file", 1), ("set_part", 1.5), ("save_set", 10 * cfg["p_save"] if self.n_saves < cfg["max_saves"] else 0),
+            weights = [("touch", 10 * cfg["p_touch"]), ("edit", 3), ("rich_para", 6), ("add_file", 1), ("set_part", 1.5), ("del_part", 1), ("save_set", 10 * cfg["p_save"] if self.n_saves < cfg["max_saves"] else 0),
                        ("reopen", (3 * cfg["p_reopen"]) if self._reopenable() else 0)]
         name = rng.weighted(weights, "op")
         op = {"op": name}
@@ -221,6 +221,10 @@ class DocEngine:
             # standard XML part names, also inside sub-documents: precondition)
             std_base = {"content.xml", "meta.xml", "styles.xml", "settings.xml", "manifest.xml"}
             cands = sorted(x for x in st.names() if x.rsplit("/", 1)[-1] not in std_base and x != "mimetype" and x != ds.RDF and not x.endswith("/"))
+            if self.prop == "C11":
+                # (a picture still referenced by a draw:image changes what the flat export does with that image:
+                # only unreferenced files are deleted here)
+                cands = [x for x in cands if not x.startswith(("Pictures/", "Object", "media/"))]
             if not cands:
                 return {"op": "touch", "part": "manifest"}
             # bias: names that are a prefix of / prefixed by another name (same content added
@@ -256,6 +260,9 @@ class DocEngine:
             variants = [("zip", True), ("folder", None), ("folder", False), ("xml", None), ("xml", False), ("zip", None)]
             k = rng.randint(1, 4, "nvariants")
             op["variants"] = [{"packaging": pk, "pretty": pr, "target": ("bytesio" if pk != "folder" and rng.chance(0.5, "vt") else "path")} for pk, pr in rng.sample(variants, k, "variants")]
+            if self.sut.src["kind"] == "folder" and self.sut.src.get("path") and rng.chance(0.4, "inplace_variant"):
+                # last of the set: the folder the document was opened from is saved in place
+                op["variants"].append({"packaging": "folder", "pretty": rng.choice([None, False], "ipretty"), "target": "inplace"})
             if rng.chance(0.3, "reuse_buf"):
                 op["reuse_buffer"] = True  # zip variants written to a buffer go to ONE buffer, one after the other
             if rng.chance(self.cfg["p_fault"], "fault?"):
@@ -285,6 +292,10 @@ class DocEngine:
             # exports and string conversions carry the process-global context: drawn more often
             heavy = [e for e in doc_reads.ENTRY_NAMES if e.startswith(("doc.to_markdown", "doc.get_formatted_text", "str(", "lists:", "body.inner_text", "tables: get_formatted", "tables: str"))]
             op["entries"] = [rng.choice(heavy, "entry_h") if rng.chance(0.45, "heavy?") else rng.choice(doc_reads.ENTRY_NAMES, "entry") for _ in range(k)]
+        elif name == "page_break_style":
+            if rng.chance(0.35, "pbpre"):
+                # a style of that name is already there (another tool's, or an older odfdo's) and is not a page break
+                op["pre"] = rng.choice(["column", "auto"], "pbprev")
         elif name == "env_touch_source":
             files = sorted(x for x in st.base if not x.endswith("/"))
             op["name"] = rng.choice(files, "touchname") if files else "mimetype"
@@ -319,6 +330,30 @@ class DocEngine:
             op["media"] = rng.choice(["", "", "application/octet-stream"], "xmedia")
         return op
 
+    @staticmethod
+    def _rle_table(n, name):
+        """a table as office suites store it: runs of repeated rows and of repeated cells (built from XML)"""
+        from odfdo import Element
+
+        def cell(v, k=1):
+            rep = f' table:number-columns-repeated="{k}"' if k > 1 else ""
+            if v is None:
+                return f"<table:table-cell{rep}/>"
+            return f'<table:table-cell{rep} office:value-type="string"><text:p>{v}</text:p></table:table-cell>'
+
+        def row(cells, k=1):
+            rep = f' table:number-rows-repeated="{k}"' if k > 1 else ""
+            return f"<table:table-row{rep}>{cells}</table:table-row>"
+
+        a, b = 2 + n % 3, 2 + (n // 2) % 2
+        xml = (f'<table:table table:name="{name}"><table:table-column table:number-columns-repeated="6"/>'
+               + row(cell(f"a{n}", a) + cell("x") + cell(None, 5 - a), 3 if n % 4 == 1 else 1)
+               + row(cell(f"b{n}") + cell("y", 2) + cell(f"z{n}", 3))
+               + row(cell(f"c{n}", 3) + cell(None, 3), b)
+               + row(cell(f"d{n}") + cell(None, 2) + cell("w", 3))
+               + "</table:table>")
+        return Element.from_tag(xml)
+
     def _gen_rich_para(self, rng, n):
         """a text:p / text:h mixing text with text:s, tab, line-break, spans,
         links, notes, frames, bookmarks ... in seeded adjacency"""
@@ -329,7 +364,8 @@ class DocEngine:
         def inline(depth):
             k = rng.weighted([("text", 6), ("s", 3), ("s2", 2), ("tab", 3), ("lb", 3), ("span", 3 if depth < 2 else 0), ("a", 2 if depth < 2 else 0),
                               ("note", 1.5 if depth == 0 else 0), ("frame", 1 if depth == 0 else 0), ("bookmark", 1.5), ("annotation", 1 if depth == 0 else 0),
-                              ("refmark", 1), ("pagenum", 1), ("softbreak", 0.5), ("varset", 1 if self.prop == "C15" else 0)], "inl")
+                              ("refmark", 1), ("pagenum", 1), ("softbreak", 0.5), ("varset", 1 if self.prop == "C15" else 0),
+                              ("meta", 1.2 if depth < 2 else 0)], "inl")
             if k == "text":
                 w = rng.choice(words, "w")
                 return w + (" " if rng.chance(0.5, "sp") else "")
@@ -356,9 +392,22 @@ class DocEngine:
                         '<text:p>in frame<text:s/>%d</text:p></draw:text-box></draw:frame>' % (n, n))
             if k == "bookmark":
                 return '<text:bookmark text:name="bm%d"/>' % n
+            if k == "meta":
+                # RDF-annotated text / a metadata field: inline containers of text AND elements
+                tag = rng.choice(["text:meta", "text:meta-field"], "metatag")
+                inner = "".join(inline(depth + 1) for _ in range(rng.randint(1, 3, "nmeta")))
+                return '<%s xml:id="mt%d">marked <text:span text:style-name="T1">part</text:span> %s here</%s>' % (tag, n, inner, tag)
             if k == "annotation":
                 return '<office:annotation><dc:creator>sim</dc:creator><dc:date>2024-01-01T00:00:00</dc:date><text:p>annot %d</text:p></office:annotation>' % n
             if k == "refmark":
+                if depth == 0 and self.prop == "C15" and rng.chance(0.6, "rmrange"):
+                    # a range between paired marks that holds whole elements, as office suites write it
+                    mid = "".join(inline(depth + 1) for _ in range(rng.randint(1, 3, "nrm")))
+                    if rng.chance(0.5, "rmkind"):
+                        return ('<text:reference-mark-start text:name="rr%d"/>ref <text:span text:style-name="T1">inside</text:span>%s<text:line-break/>tail'
+                                '<text:reference-mark-end text:name="rr%d"/>' % (n, mid, n))
+                    return ('<office:annotation office:name="an%d"><dc:creator>sim</dc:creator><dc:date>2024-01-01T00:00:00</dc:date><text:p>ranged %d</text:p></office:annotation>'
+                            'noted <text:span text:style-name="T1">inside</text:span>%s<office:annotation-end office:name="an%d"/>' % (n, n, mid, n))
                 return '<text:reference-mark text:name="rm%d"/>' % n
             if k == "pagenum":
                 return '<text:page-number text:select-page="current">1</text:page-number>'
@@ -821,6 +870,8 @@ class DocEngine:
                         t = Table(f"Table{n}", width=2 + n % 3, height=2 + (n // 3) % 3)
                         t.set_value((0, 0), n)
                         t.set_value((1, 1), f"v{n}")
+                        if self.prop == "C15" and n % 2:
+                            t = self._rle_table(n, f"Table{n}")
                         body.append(t)
                     else:
                         uri = doc.add_file(IMG1)
@@ -832,6 +883,8 @@ class DocEngine:
                     t = Table(f"Sheet{n}", width=2, height=2)
                     t.set_value((0, 0), n)
                     t.set_value("B2", f"v{n}")
+                    if self.prop == "C15" and n % 2:
+                        t = self._rle_table(n, f"Sheet{n}")
                     body.append(t)
                 else:
                     body.append(DrawPage(f"page{n}", name=f"Page {n}"))
@@ -1023,6 +1076,11 @@ class DocEngine:
                     self.stats.probe("env:bytesio-target-already-holds-data")
             elif v["target"] == "bytesio" and pk != "folder":
                 target = simenv.FaultyBytesIO()
+            elif v["target"] == "inplace":
+                if self.sut.src["kind"] != "folder" or not self.sut.src.get("path"):
+                    continue
+                target = self.sut.src["path"]
+                feats = feats + ["target:inplace"]
             else:
                 target = self.sut.newpath("var")
             kw = {"packaging": pk}
@@ -1065,6 +1123,18 @@ class DocEngine:
             if v1:
                 out.append(v1)
                 break
+            if pk in ("zip", "folder"):
+                # same files as the plain zip (a packaging changes the layout only)
+                try:
+                    names = {n for n in self._read_art(art).parts if not n.endswith("/")}
+                except Exception as e:
+                    out.append(Violation("C11", "variant-unreadable", "save_set", feats, type(e).__name__, str(e)))
+                    break
+                want_names = {n for n in ref.parts if not n.endswith("/")}
+                if names != want_names:
+                    out.append(Violation("C11", "variant-file-list-differs", "save_set", feats, None,
+                                         f"only in this variant: {sorted(names - want_names)[:3]}; only in the plain zip: {sorted(want_names - names)[:3]}"))
+                    break
         if out:
             self._outcome = "save_set:" + out[0].oracle
             return out
@@ -1300,6 +1370,9 @@ class DocEngine:
                 a1 = doc_reads._ser(fn(doc))
             except Exception as e:
                 exc1 = type(e).__name__
+            if isinstance(a1, dict) and "__inconsistent__" in a1:
+                self._outcome = "read:answer-differs"
+                return [Violation("C15", "answer-differs", "read:" + name, feats + ["order_of_reads"], None, a1["__inconsistent__"])]
             try:
                 m1 = self._memory()
             except Exception as e:
@@ -1425,6 +1498,16 @@ class DocEngine:
     def _op_page_break_style(self, op):
         doc, st = self.sut.doc, self.sut.store
         feats = self._feats()
+        if op.get("pre"):
+            from odfdo import Element
+
+            feats = feats + ["same_name_style_not_a_page_break"]
+            try:
+                doc.insert_style(Element.from_tag(
+                    '<style:style style:family="paragraph" style:name="odfdopagebreak">'
+                    f'<style:paragraph-properties fo:break-after="{op["pre"]}"/></style:style>'), automatic=False)
+            except Exception:
+                return []
         try:
             doc.add_page_break_style()
             p1 = doc_styles.population(doc)
@@ -1435,6 +1518,11 @@ class DocEngine:
         st.touched |= {"content.xml", "styles.xml"}
         self._outcome = "page_break_style"
         key = ("styles", "office:styles", "style:style", "paragraph", "odfdopagebreak")
+        got = doc.get_style("paragraph", "odfdopagebreak")
+        props = (got.get_properties() or {}) if got is not None else {}
+        if props.get("fo:break-after") != "page":
+            return [Violation("C13", "page-break-style-not-ensured", "page_break_style", feats, None,
+                              f"after add_page_break_style() the style found under that name has fo:break-after={props.get('fo:break-after')!r}")]
         if len(p1.get(key, [])) != 1:
             return [Violation("C13", "wrong-container", "page_break_style", feats, None, f"{len(p1.get(key, []))} definitions of {key}")]
         if p1 != p2:
@@ -1607,7 +1695,7 @@ class DocEngine:
                 pass
         # the original stays alive, untouched from now on: it must still save what it held
         try:
-            self.shadow = {"doc": doc, "expected": self._expected_for_save(), "mimetype": st.mimetype, "flags": set(self.flags) | {"cloned"}, "src_path": self.sut.src.get("path")}
+            self.shadow = {"doc": doc, "expected": self._expected_for_save(), "mimetype": st.mimetype, "flags": set(self.flags) | {"cloned"}, "src_path": self.sut.src.get("path"), "baseline": set(self.baseline_c04)}
         except Exception:
             self.shadow = None
         self.sut.doc = res
@@ -1634,7 +1722,7 @@ class DocEngine:
         pkg = xmlref.read_package(buf.getvalue())
         if self.prop == "C04":
             for rule, det in ds.inspect_odf_zip(pkg, sh["mimetype"]):
-                if (rule, det) in self.baseline_c04:
+                if (rule, det) in sh.get("baseline", self.baseline_c04):  # (what the inspector already found in ITS source)
                     continue
                 return [Violation("C04", rule, "save_other", feats, None, det)]
         else:
@@ -1786,6 +1874,12 @@ class DocEngine:
                     a["dead"] = True
         if tkind != "bytesio" and self.shadow and self.shadow.get("src_path") and self.shadow["src_path"] in (r0, g0):
             self.shadow["flags"].add("source_overwritten_by_clone")
+            if os.path.isdir(self.shadow["src_path"]):
+                # a document opened from a folder is by design a live view of that folder: the clone writing
+                # into (or moving away) that very folder is an external writer, which no property covers -
+                # the original is not saved again in this history (same rule as for the C10 twins)
+                self.stats.probe("shadow_dropped:source_folder_overwritten")
+                self.shadow = None
         res, exc = self._call(lambda: doc.save(given, **kw), "save")
         fired = self.env.disarm() if fault else False
         os.chdir(old_cwd)
